@@ -54,11 +54,13 @@ ASSUMPTIONS = ["node ids are distinct ints; no self-loops; simple undirected gra
 TESTED_NOT_PROVED = ["prune_automorphisms=True: WHICH mapping represents a host node set is VF2's choice (first in its enumeration order) -- the "
                      "kept mappings are judged by the oracle only (valid, maximum, host sets pairwise distinct); orientation, size, subsets "
                      "tried and the SET of represented host node sets are modelled and compared (run_matcher_auto, C12_prune_auto_host_sets)",
-                     "mcs_mol (molecule-level greedy matching keeps VF2's first isomorphism): oracle only (validity of the combined mapping)",
+                     "mcs_mol: WHICH isomorphism maps a matched component onto its partner is VF2's choice -- the combined mapping is judged by "
+                     "the oracle (validity); which components are paired, the size and the number of matcher objects are modelled and compared "
+                     "(run_mcs_mol), and C12_mcs_mol_valid proves validity for every choice of valid mappings inside the pairs",
                      "derived views of a matcher object (mappings, num_mappings, mapping_direction, iteration, repr, repeated and re-ordered "
                      "get_mappings reads, reads after the caller edited earlier results): checked by the adapter against the stored result "
                      "after every step of every history"]
-LEVEL_TEXT = ("Machine-checked proof (Coq, 25 theorems in coq/props/C12.v, all closed under the global context) over an executable model "
+LEVEL_TEXT = ("Machine-checked proof (Coq, 26 theorems in coq/props/C12.v, all closed under the global context) over an executable model "
               "of MCSMatcher._search_subgraphs / _prune_graph / _prepare_orientation / find_common_subgraph / get_mappings (both copies of "
               "the matcher), for all pairs of graphs with distinct node ids: every returned mapping (both modes, all three directions, after "
               "orientation swap and wildcard pruning) is a function, injective, label-preserving, and preserves presence AND order of every "
@@ -76,7 +78,8 @@ LEVEL_NOTE = ("Trusted: Coq kernel + vm_compute; the hand-written model and enco
               "induced sub-graph isomorphisms as the verified enumerator (C12_vf2_premise states that nothing else about VF2 matters; "
               "monitored: ordered result lists compared on every case); in component-wise mode with pruning the node order of networkx's pruned copy "
               "(Python-set order when fewer than half of the atoms survive) is an input of the model. Not modelled, oracle only: "
-              "prune_automorphisms and mcs_mol (both keep VF2's first result). Not proved (compared only): last_size in all-sizes mode. "
+              "the representative kept by prune_automorphisms and the isomorphism chosen inside a matched pair of mcs_mol (VF2's first result; the "
+              "order-independent parts of both modes are modelled). Not proved (compared only): last_size in all-sizes mode. "
               "Histories on reused matcher / graph objects are compared step by step with the (pure) model.")
 TECHNIQUE = ("Coq proof about a structure-following Gallina model (loop invariants of the size-descending search, refinement to the "
              "verified enumerator Mono.monos via an order-free reading of Mono.valid, transport through inversion for the orientation swap) "
@@ -1205,6 +1208,12 @@ def _mcs_mol_cases(rng, n):
                 for _ in range(rng.randint(1, 4))]
         if rng.random() < 0.4:
             mols.append(_gcopy(rng.choice(mols)))
+        ring = None
+        if rng.random() < 0.4:      # a ring; the other graph gets the same atoms with one ring bond missing (same size, still connected)
+            k = rng.randint(3, 4)
+            ring = {"nodes": [[i, {"element": rng.choice(["C", "N"]), "charge": 0}] for i in range(1, k + 1)],
+                    "edges": [[i, i % k + 1, {"order": 1}] for i in range(1, k + 1)]}
+            mols.append(ring)
 
         def assemble(parts):
             g, nxt = {"nodes": [], "edges": []}, 1
@@ -1218,7 +1227,13 @@ def _mcs_mol_cases(rng, n):
         second = []
         for m_ in mols:
             z = rng.random()
-            if z < 0.55:
+            if m_ is ring:
+                opened = _gcopy(ring)
+                opened["edges"].pop(rng.randrange(len(opened["edges"])))
+                second.append(opened)
+                if rng.random() < 0.5:
+                    second.append(_gcopy(ring))
+            elif z < 0.55:
                 second.append(_gcopy(m_))
             elif z < 0.8:
                 second.append(_edit(rng, m_) if rng.random() < 0.5 else _gcopy(m_))
